@@ -54,6 +54,8 @@ def configs(tier):
     for motif in ("bare-t", "hub2+tri", "hub2+bare", "tri+tri2", "hub2-rev+bare", "tri-gen", "path2-repeat"):
         add("motifs", motif, 3, 1)
     add("motifs", "hub2+tri", 2, 3)
+    add("motifs", "arc", 3, 2)
+    add("motifs", "arc+bare", 3, 1)
     add("fast", "k3simple+k2", 3, 2)
     add("fast", "k3simple", 4, 2)  # two motif instances with different numbers of edges occur here
     # larger fixed sequences (magnitude-dependent arithmetic): 15 triangle stubs on 11 vertices, 22 edge stubs on 12, 33 on 23
